@@ -189,7 +189,10 @@ def probe_verbatim(v: str) -> bool:
     return H.done(r[0] == 'ok' and same_str(r[2], v))
 
 
-RT_ALPHA = '\\\'"`n0\n'
+RT_ALPHA = H.P('rt_alpha') or '\\\'"`n0\n'
+# characters that are not in Unicode normal form C (alone or next to each other): combining acute, ANGSTROM SIGN,
+# OHM SIGN, Hangul jamo L+V, a CJK compatibility ideograph
+RT_UNICODE = 'e\u0301\u212b\u2126\u1100\u1161\uf900'
 
 
 def roundtrip_engine(v: str) -> bool:
@@ -380,7 +383,7 @@ def keyword_action(w: str) -> bool:
     return H.done(ok)
 
 
-KW_ALPHA = 'inot_1é'
+KW_ALPHA = H.P('kw_alpha') or 'inot_1é'
 WORD_SHAPE = re.compile(r'[^\W\d]\w*')      # documented keyword shape: a letter or underscore, then word characters
 OP_WORDS = sorted(k for k in (OWNER._operators_table if OWNER is not None else {}) if k[:1].isalpha())
 
@@ -530,6 +533,11 @@ def conditions(tier, seed):
     out.append({'name': 'roundtrip[engine]', 'func': 'roundtrip_engine', 'timeout': t, 'param': {'slen': slen - 1},
                 'bounds': 'every v of len <= %d over the alphabet %r (enumerated by the solver: each path is one concrete value) '
                           'spelled in the %d quote styles and evaluated by the whole engine' % (slen - 1, RT_ALPHA, len(STYLES))})
+    out.append({'name': 'roundtrip[engine,non-NFC]', 'func': 'roundtrip_engine', 'timeout': t,
+                'param': {'slen': 2, 'rt_alpha': RT_UNICODE},
+                'bounds': 'every v of len <= 2 over characters that are not in Unicode normal form C %r (enumerated), spelled in '
+                          'the %d quote styles and evaluated by the whole engine: unescaped characters stand for themselves'
+                          % (RT_UNICODE, len(STYLES))})
     for kind, what in (('x', 'all 256 \\xHH, both digit cases'), ('o', 'all octal escapes \\o, \\oo, \\ooo'),
                        ('u', '%d boundary code points as \\uHHHH' % len(U_POINTS)),
                        ('U', '%d boundary code points as \\UHHHHHHHH' % len(UU_POINTS)),
@@ -551,6 +559,9 @@ def conditions(tier, seed):
                 'bounds': 'word symbolic over an unrestricted alphabet, len <= %d, constrained to the live t_KEYWORD_STRING regex' % wlen})
     out.append({'name': 'keyword[engine]', 'func': 'keyword_engine', 'timeout': t, 'param': {'wlen': wlen},
                 'bounds': 'every word of len <= %d over %r (enumerated) through the whole engine' % (wlen, KW_ALPHA)})
+    out.append({'name': 'keyword[engine,non-NFC]', 'func': 'keyword_engine', 'timeout': t,
+                'param': {'wlen': 2, 'kw_alpha': 'R\u212b\u2126e\u0301\uf900'},
+                'bounds': 'every word of len <= 2 over letters that are not in Unicode normal form C (enumerated) through the whole engine'})
     out.append({'name': 'keyword[words]', 'func': 'keyword_words', 'timeout': 100,
                 'bounds': '%d selected words (constants, operator look-alikes, underscores, non-ASCII, long)' % len(WORDS)})
     out.append({'name': 'eval_literal_history', 'func': 'eval_literal_history', 'timeout': t,
